@@ -454,6 +454,16 @@ func init() {
 			R("session", "GET", "/", nil, []string{"_sso_proxy_csrf=keepme; {SESSION}; _SSO_PROXY=otherCase; _sso_proxy2=x"}, ""),
 			R("session", "PUT", "/big", []string{"Content-Type: application/octet-stream"}, nil, strings.Repeat("0123456789abcdef", 4096)),
 			R("session", "GET", "/", []string{"Authorization: Basic abc", "Authorization: Bearer def"}, nil, ""),
+			// the favicon route authenticates first and then goes through the same scrub and identity assertion
+			R("session", "GET", "/favicon.ico", spoof, nil, ""),
+			R("session", "GET", "/favicon.ico?v=2", []string{"X-Forwarded-Access-Token: forged"}, nil, ""),
+			R("none", "GET", "/favicon.ico", spoof, nil, ""),
+			// queries the standard library would rewrite if it re-parsed them: what is signed is what is sent
+			R("session", "GET", "/search?q=a;b&c=3", nil, nil, ""),
+			R("session", "GET", "/search?a=1;b=2", nil, nil, ""),
+			R("session", "GET", "/cart?discount=100%", nil, nil, ""),
+			R("session", "POST", "/cart?p=%zz&ok=1", []string{"Content-Type: text/plain"}, nil, "x"),
+			R("session", "GET", "/s?a=b&&c=&=d&e", nil, nil, ""),
 		}})
 		emit(fwCase{Cfg: cfg(true, false), Reqs: []fwReq{R("session", "GET", "/x", nil, nil, ""), R("none", "GET", "/health", nil, nil, "")}})
 		emit(fwCase{Cfg: cfg(true, false), Overlap: []int{12 << 20, 12<<20 - 4096}})
